@@ -53,9 +53,9 @@ def main(tier, seed):
     chk.trusted.update(I.assumed_used)
     chk.trusted.add("meta: routing clauses (per binder x matrix row) + _get_binding exit clauses + glue clauses "
                     "compose to the statement by transitivity of equality (paper argument)")
-    if tier == "thorough":
+    if tier in ("quick", "thorough"):
         warnings.simplefilter("ignore")
-        fails, n, d = c10_concrete.search(seed=seed, stop_at=5)
+        fails, n, d = c10_concrete.search(seed=seed, stop_at=5, limit=None if tier == "thorough" else 4000)
         chk.bounded.append({"name": "bounded cross-check: all signatures <= 5 parameters x call shapes on the real code",
                             "evaluations": n, "distinct_nontrivial": d, "failures": len(fails),
                             "rule": "every (shape, annotation rotation, defaults, call shape, bind|wrap); distinct by shape+call"})
